@@ -67,6 +67,11 @@ def compare(res, corr, driver, harness, config, env=None, sigfn=sig_default, wra
                           (config, corr.lines[bad][:300], out_m[bad][:300], out_i[bad][:300]),
                           {"config": config, "ops": corr.lines[a:bad + 1], "model": out_m[a:bad + 1], "impl": out_i[a:bad + 1],
                            "how": "feed `ops` to build/ocaml/driver and to the harness built for `config` (./check <id> --replay <this file>)"})
+    # an operation neither side knows would be "agreement" on the word UNSUPPORTED: that is a hole in the check, not a pass
+    unsup = sorted(set(corr.lines[i].split()[0] + (" " + corr.lines[i].split()[1] if len(corr.lines[i].split()) > 1 else "")
+                       for i in range(len(corr.lines)) if out_m[i] == "UNSUPPORTED" and out_i[i] == "UNSUPPORTED"))
+    if unsup:
+        raise common.Infra("operations unknown to both the model driver and the harness (%s): %s" % (config, ", ".join(unsup[:10])))
     if rc_i != 0 and ndis == 0:
         res.violation("harness-crash@" + config, "harness exited abnormally in %s: %s" % (config, err_i[-1500:]),
                       {"config": config, "stderr": err_i[-4000:]}, no_input=True)
